@@ -2,6 +2,7 @@ package c03
 
 import (
 	"math"
+	"os"
 
 	"pgregory.net/rapid"
 
@@ -26,6 +27,18 @@ type igen struct {
 }
 
 func (g *igen) n(lo, hi int, label string) int { return rapid.IntRange(lo, hi).Draw(g.t, label) }
+
+// uniform draws 0..n-1 (n <= 4096) without rapid's bias towards small values: every opcode must get
+// its share of the cases. Single-bit draws are unbiased.
+func (g *igen) uniform(n int, label string) int {
+	v := 0
+	for i := 0; i < 16; i++ {
+		if rapid.Bool().Draw(g.t, label) {
+			v |= 1 << uint(i)
+		}
+	}
+	return v % n
+}
 func (g *igen) oneIn(n int, label string) bool { return g.n(0, n-1, label) == 0 }
 
 func pick[T any](g *igen, xs []T, label string) T { return rapid.SampledFrom(xs).Draw(g.t, label) }
@@ -403,7 +416,22 @@ func genICase(t *rapid.T) ICase {
 	g := &igen{t: t}
 	g.arch = pick(g, []isaspec.Arch{isaspec.GCN3, isaspec.CDNA3}, "arch")
 	ops := coveredOps[g.arch]
-	co := ops[g.n(0, len(ops)-1, "op")]
+	if f := os.Getenv("VERIF_INSTS_OP"); f != "" {
+		// development aid: restrict the generator to the opcodes whose key ("gcn3/SOP2/1") matches
+		var sel []coveredOp
+		for _, a := range []isaspec.Arch{isaspec.GCN3, isaspec.CDNA3} {
+			for _, o := range coveredOps[a] {
+				if o.Entry.Key.String() == f {
+					sel = append(sel, o)
+				}
+			}
+		}
+		if len(sel) > 0 {
+			g.arch = sel[0].Arch
+			return genCaseFor(g, sel[0].Entry)
+		}
+	}
+	co := ops[g.uniform(len(ops), "op")]
 	return genCaseFor(g, co.Entry)
 }
 
